@@ -166,7 +166,7 @@ func runC30once(x *vt.Ctx, c LambdaCase) (*vt.Finding, bool) {
 		if failing {
 			engineFailure = true
 			if last.StdStreamType != types.EruError {
-				return vt.Failf("engine-failure-not-last", "workload %.8s: logs/attach/wait failed (%+v) but the last message is %q (%s)", id, s, last.Data, last.StdStreamType), false
+				return vt.Failf("engine-failure-not-last", "workload %.8s: logs/attach/wait failed (%+v) but the last message is %q (%v)", id, s, last.Data, last.StdStreamType), false
 			}
 			continue
 		}
